@@ -14,14 +14,26 @@
 //! (c) after every step of (b): `JwtCredentialValidatorUtils::check_status` on a credential pointing at each probe
 //!     index of each service reports `Revoked` iff the index is a member; once per distinct document state also the
 //!     status-entry variants (no index query, query != property, malformed index, dangling / wrong-type service,
-//!     issuer document missing), which must never pass.
+//!     issuer document missing), several offered issuer documents in both orders, and the direct entry point
+//!     `check_revocation_bitmap_status`.
+//! (d) endpoints written by OTHER implementations of the RevocationBitmap2022 specification for the same sets: the
+//!     run-container variant of the roaring portable format (cookie 12347; all-run, alternating and size-optimal
+//!     container choices, written by a harness-side writer from the format specification) must decode to the same
+//!     set, and the decoded bitmap must survive `to_service` / document updates again; the same serialisation
+//!     compressed at other zlib levels is executed and recorded (only "decodes to ANOTHER set" is judged).
+//!
+//! Oracle discipline: the statement ties no case to a particular error variant or message; judged are only
+//! (i) membership / the decoded set, (ii) `Revoked` iff member for the canonical status entry, (iii) "never `Ok` for
+//! a member, never `Revoked` for a non-member" for the entry forms the statement leaves open. Everything else
+//! (error variants, acceptance of malformed entries, document metadata, service order, exact data-url prefix) is
+//! executed and recorded in the outcome histogram.
 
 use identity_core::common::{Object, Url, Value};
 use identity_core::convert::{FromJson, ToJson};
 use identity_credential::credential::{Credential, CredentialBuilder, RevocationBitmapStatus, Status, Subject};
 use identity_credential::revocation::{RevocationBitmap, RevocationDocumentExt};
 use identity_credential::validator::{JwtCredentialValidatorUtils, JwtValidationError, StatusCheck};
-use identity_did::DIDUrl;
+use identity_did::{DIDUrl, DID};
 use identity_document::document::CoreDocument;
 use identity_document::service::{Service, ServiceEndpoint};
 use identity_iota_core::IotaDocument;
@@ -43,6 +55,13 @@ const K_OWN_REJECTED: &str = "RevocationBitmap::try_from(&Service)|round-trip|ow
 const K_OWN_DIFFERS: &str = "RevocationBitmap::try_from(&Service)|round-trip|decoded-set-differs";
 const K_LEGACY_REJECTED: &str = "RevocationBitmap::try_from(&Service)|legacy-endpoint|rejected";
 const K_LEGACY_DIFFERS: &str = "RevocationBitmap::try_from(&Service)|legacy-endpoint|decoded-set-differs";
+/// a legacy endpoint whose outer base64 layer ends in `=` padding (two of three legacy endpoints do)
+const K_LEGACY_PADDED_REJECTED: &str = "RevocationBitmap::try_from(&Service)|legacy-endpoint|padded-outer-layer-rejected";
+const K_RUN_REJECTED: &str = "RevocationBitmap::try_from(&Service)|run-container-stream|rejected";
+const K_RUN_DIFFERS: &str = "RevocationBitmap::try_from(&Service)|run-container-stream|decoded-set-differs";
+const K_REENC_REJECTED: &str = "RevocationBitmap::try_from(&Service)|re-encoded-foreign-bitmap|rejected";
+const K_REENC_DIFFERS: &str = "RevocationBitmap::try_from(&Service)|re-encoded-foreign-bitmap|decoded-set-differs";
+const K_FOREIGN_DIFFERS: &str = "RevocationBitmap::try_from(&Service)|other-zlib-level|decoded-set-differs";
 
 /// The 12-index universe of the subset family.
 const U12: [u32; 12] = [0, 1, 2, 4095, 4096, 65535, 65536, 65537, 0x7fff_ffff, 0x8000_0000, 0xffff_fffe, 0xffff_ffff];
@@ -61,8 +80,8 @@ enum Case {
   Runs { start: u32, runs: u32, len: u32, gap: u32 },
   /// { i in [0, span) | i mod step != 0 }
   Holes { span: u32, step: u32 },
-  /// (b)/(c): document kind (0 CoreDocument, 1 IotaDocument), initial endpoints (0 fresh, 1 legacy),
-  /// universe id, ops (service, revoke?, batch id — see `batch`)
+  /// (b)/(c): document kind (0 CoreDocument, 1 IotaDocument), initial endpoints (0 fresh, 1 legacy, 2 run-container
+  /// stream + dense set — see `init_members`), universe id, ops (service, revoke?, batch id — see `batch`)
   Hist { kind: u8, init: u8, uni: u8, ops: Vec<(u8, bool, u8)> },
 }
 
@@ -93,24 +112,160 @@ fn b64(data: &[u8], url: bool, pad: bool) -> String {
   out
 }
 
-/// zlib(roaring portable serialisation) of a sorted, duplicate-free index list — built with the roaring and flate2
-/// crates directly (trusted base), not through the subject.
-fn zlib_roaring(elems: &[u32]) -> Vec<u8> {
-  use std::io::Write;
+/// Roaring portable serialisation (no run containers) of a sorted, duplicate-free index list — built with the roaring
+/// crate directly (trusted base), not through the subject.
+fn roaring_std(elems: &[u32]) -> Vec<u8> {
   let rb = roaring::RoaringBitmap::from_sorted_iter(elems.iter().copied()).expect("sorted, duplicate-free");
   let mut ser = Vec::with_capacity(rb.serialized_size());
   rb.serialize_into(&mut ser).expect("serialise into a Vec");
+  ser
+}
+/// zlib at the default level (what the specification's reference encoder uses).
+fn zlib_default(data: &[u8]) -> Vec<u8> {
+  use std::io::Write;
   let mut e = vx::fx::zlib_encoder();
-  e.write_all(&ser).expect("zlib into a Vec");
+  e.write_all(data).expect("zlib into a Vec");
   e.finish().expect("zlib into a Vec")
+}
+/// zlib at an explicit level 0..=9 (flate2, trusted base).
+fn zlib_level(data: &[u8], level: u32) -> Vec<u8> {
+  use std::io::Write;
+  let mut e = flate2::write::ZlibEncoder::new(Vec::new(), flate2::Compression::new(level));
+  e.write_all(data).expect("zlib into a Vec");
+  e.finish().expect("zlib into a Vec")
+}
+fn zlib_roaring(elems: &[u32]) -> Vec<u8> {
+  zlib_default(&roaring_std(elems))
+}
+
+/// Which containers a foreign writer stores as run containers.
+#[derive(Clone, Copy, Debug, PartialEq)]
+enum RunPolicy {
+  /// every container
+  All,
+  /// containers at even positions; the others as array (<= 4096 members) / bitmap containers
+  Alternate,
+  /// a container is a run container iff that is strictly the smallest form (what `runOptimize` of the C / Java /
+  /// Go implementations does)
+  Smallest,
+}
+impl RunPolicy {
+  fn name(self) -> &'static str {
+    match self {
+      RunPolicy::All => "all-run",
+      RunPolicy::Alternate => "alternating",
+      RunPolicy::Smallest => "size-optimal",
+    }
+  }
+}
+/// The run-container variant of the roaring portable format (cookie 12347), written from the format specification
+/// (https://github.com/RoaringBitmap/RoaringFormatSpec): cookie | (containers-1) << 16, run-flag bitset, per container
+/// (key, cardinality-1), offsets only for >= 4 containers, then the containers: run = count + (start, length-1)
+/// pairs, array = sorted u16 values, bitmap = 1024 little-endian words. `None` if no container would be a run
+/// container (such a stream has the other cookie) or the set is empty. `empty_run_at` additionally inserts a run
+/// container WITHOUT runs under that (unused) key — not a valid stream, used for recorded cases only.
+fn run_stream(elems: &[u32], policy: RunPolicy, empty_run_at: Option<u16>) -> Option<Vec<u8>> {
+  struct Cont {
+    key: u16,
+    vals: Vec<u16>,
+    runs: Vec<(u16, u16)>,
+    run: bool,
+  }
+  let mut conts: Vec<Cont> = Vec::new();
+  for e in elems {
+    let (key, low) = ((e >> 16) as u16, *e as u16);
+    match conts.last_mut() {
+      Some(c) if c.key == key => c.vals.push(low),
+      _ => conts.push(Cont { key, vals: vec![low], runs: vec![], run: false }),
+    }
+  }
+  if let Some(k) = empty_run_at {
+    if conts.iter().any(|c| c.key == k) {
+      return None;
+    }
+    let pos = conts.iter().position(|c| c.key > k).unwrap_or(conts.len());
+    conts.insert(pos, Cont { key: k, vals: vec![], runs: vec![], run: true });
+  }
+  for (pos, c) in conts.iter_mut().enumerate() {
+    for v in &c.vals {
+      match c.runs.last_mut() {
+        Some((start, len1)) if *start as u32 + *len1 as u32 + 1 == *v as u32 => *len1 += 1,
+        _ => c.runs.push((*v, 0)),
+      }
+    }
+    if c.vals.is_empty() {
+      continue; // the inserted empty run container
+    }
+    let run_bytes = 2 + 4 * c.runs.len();
+    let other_bytes = if c.vals.len() <= 4096 { 2 * c.vals.len() } else { 8192 };
+    c.run = match policy {
+      RunPolicy::All => true,
+      RunPolicy::Alternate => pos % 2 == 0,
+      RunPolicy::Smallest => run_bytes < other_bytes,
+    };
+  }
+  if conts.is_empty() || !conts.iter().any(|c| c.run && !c.vals.is_empty()) {
+    return None;
+  }
+  let n = conts.len();
+  let mut out: Vec<u8> = Vec::new();
+  out.extend_from_slice(&(12347u32 | ((n as u32 - 1) << 16)).to_le_bytes());
+  let mut flags = vec![0u8; (n + 7) / 8];
+  for (i, c) in conts.iter().enumerate() {
+    if c.run {
+      flags[i / 8] |= 1 << (i % 8);
+    }
+  }
+  out.extend_from_slice(&flags);
+  for c in &conts {
+    out.extend_from_slice(&c.key.to_le_bytes());
+    out.extend_from_slice(&((c.vals.len().max(1) - 1) as u16).to_le_bytes());
+  }
+  let size_of = |c: &Cont| if c.run { 2 + 4 * c.runs.len() } else if c.vals.len() <= 4096 { 2 * c.vals.len() } else { 8192 };
+  if n >= 4 {
+    let mut offset = out.len() + 4 * n;
+    for c in &conts {
+      out.extend_from_slice(&(offset as u32).to_le_bytes());
+      offset += size_of(c);
+    }
+  }
+  for c in &conts {
+    if c.run {
+      out.extend_from_slice(&(c.runs.len() as u16).to_le_bytes());
+      for (start, len1) in &c.runs {
+        out.extend_from_slice(&start.to_le_bytes());
+        out.extend_from_slice(&len1.to_le_bytes());
+      }
+    } else if c.vals.len() <= 4096 {
+      for v in &c.vals {
+        out.extend_from_slice(&v.to_le_bytes());
+      }
+    } else {
+      let mut words = [0u64; 1024];
+      for v in &c.vals {
+        words[*v as usize / 64] |= 1u64 << (*v % 64);
+      }
+      for w in words {
+        out.extend_from_slice(&w.to_le_bytes());
+      }
+    }
+  }
+  Some(out)
 }
 /// The single ("current") text form: Base64Url-nopad(zlib(roaring)).
 fn single_text(z: &[u8]) -> String {
   b64(z, true, false)
 }
-/// The legacy double encoding: the single text form, base64-encoded once more. The outer layer encodes ASCII only,
-/// so it never contains a symbol on which the standard and the url-safe alphabet differ.
+/// The legacy double encoding, as the versions before the fix of issue #1291 wrote it: the single text form,
+/// base64-encoded once more by the data-url layer with the STANDARD alphabet AND padding (RFC 4648 section 4) — e.g.
+/// the endpoint of an empty bitmap was `ZUp5ek1tQUFBd0FES0FCcg==` (= Base64("eJyzMmAAAwADKABr")). The outer layer
+/// encodes ASCII only, so it never contains a symbol on which the standard and the url-safe alphabet differ.
 fn legacy_text(z: &[u8]) -> String {
+  b64(single_text(z).as_bytes(), false, true)
+}
+/// The same without the padding (differs from `legacy_text` iff the single text form's length is no multiple of 3);
+/// no version of the library wrote this: recorded only.
+fn legacy_text_unpadded(z: &[u8]) -> String {
   b64(single_text(z).as_bytes(), false, false)
 }
 
@@ -227,9 +382,44 @@ fn decode_and_compare(ctx: &Ctx, case: &Case, svc: &Service, elems: &[u32], prob
   }
 }
 
+/// Whether a set case also runs the extended paths (second construction, one-batch document updates, foreign
+/// encodings). Every case of every family does, except the bulk of the thorough tier's 70 000 prefix sets, where a
+/// fixed grid does: all n <= 5000, the chunk boundary 65 400..=65 700, every 251st n, and n >= 70 000.
+fn extended(case: &Case) -> bool {
+  match case {
+    Case::Prefix { n } => *n <= 5_000 || (65_400..=65_700).contains(n) || n % 251 == 0 || *n >= 70_000,
+    _ => true,
+  }
+}
+
+/// A fresh CoreDocument / IotaDocument whose only service is `svc`.
+fn doc_with_service(kind: u8, svc: &Service) -> Option<RealDoc> {
+  let did = if kind == 0 { CORE_DID } else { IOTA_DID };
+  let core = json!({"id": did, "service": [serde_json::to_value(svc).ok()?]});
+  if kind == 0 {
+    CoreDocument::from_json_value(core).ok().map(RealDoc::Core)
+  } else {
+    IotaDocument::from_json_value(json!({"doc": core, "meta": {"created": "2023-01-01T00:00:00Z", "updated": "2023-01-02T00:00:00Z"}}))
+      .ok()
+      .map(RealDoc::Iota)
+  }
+}
+
+/// The set held by service `frag` of `doc`, compared with `want`: `Ok(None)` = equal.
+/// `Err((key, text))`: the service does not decode; `key` = the violation key to report it under.
+fn doc_set_diff(doc: &RealDoc, frag: &str, want: &[u32], probes: &[u32], k_rejected: &str) -> Result<Option<String>, (String, String)> {
+  let q = svc_url(doc.did(), frag);
+  match guard(|| doc.core().resolve_revocation_bitmap((&q).into())) {
+    Err(p) => Err((format!("resolve_revocation_bitmap|{}", p.key()), p.msg)),
+    Ok(Err(e)) => Err((k_rejected.to_string(), format!("{e}"))),
+    Ok(Ok(bm)) => Ok(guard(|| set_diff(&bm, want, probes)).unwrap_or_else(|p| Some(format!("panic: {}", p.msg)))),
+  }
+}
+
 fn eval_set(ctx: &Ctx, case: &Case) {
   let (fam, elems) = elems_of(case);
   let probes = non_member_probes(&elems);
+  let mut local: BTreeMap<String, u64> = BTreeMap::new();
   // build through the public mutators, checking their documented return values
   let mut bm = RevocationBitmap::new();
   let built = guard(|| {
@@ -258,6 +448,49 @@ fn eval_set(ctx: &Ctx, case: &Case) {
   if let Ok(Some(d)) = guard(|| set_diff(&bm, &elems, &probes)) {
     return ctx.violation("RevocationBitmap::revoke|membership-differs-from-model", &d, case);
   }
+  let ext = extended(case);
+  // the same set reached another way: descending insertion of the members AND of the probe indices, then removal
+  // of the probe indices (a superset shrinking to the set; containers change representation on the way down)
+  let mut bm_alt = RevocationBitmap::new();
+  let alt = guard(|| {
+    if !ext {
+      return None;
+    }
+    for e in elems.iter().rev() {
+      if !bm_alt.revoke(*e) {
+        return Some(format!("revoke({e}) of an absent index returned false"));
+      }
+    }
+    for e in probes.iter().rev() {
+      if !bm_alt.revoke(*e) {
+        return Some(format!("revoke({e}) of an absent index returned false"));
+      }
+    }
+    if bm_alt.len() != (elems.len() + probes.len()) as u64 {
+      return Some(format!("len {} after {} distinct revocations", bm_alt.len(), elems.len() + probes.len()));
+    }
+    for e in &probes {
+      if !bm_alt.unrevoke(*e) {
+        return Some(format!("unrevoke({e}) of a present index returned false"));
+      }
+      if bm_alt.is_revoked(*e) {
+        return Some(format!("{e} still revoked after unrevoke"));
+      }
+    }
+    None
+  });
+  match alt {
+    Err(p) => return ctx.violation(&format!("RevocationBitmap::unrevoke|{}", p.key()), &p.msg, case),
+    Ok(Some(d)) => return ctx.violation("RevocationBitmap::unrevoke|return-value-or-membership", &d, case),
+    Ok(None) => {}
+  }
+  if ext {
+    if let Ok(Some(d)) = guard(|| set_diff(&bm_alt, &elems, &probes)) {
+      return ctx.violation("RevocationBitmap::unrevoke|membership-differs-from-model", &d, case);
+    }
+    *local.entry(format!("unjudged:same-set-built-two-ways-compares-equal={}", bm_alt == bm)).or_insert(0) += 1;
+  }
+  *local.entry(format!("extended-paths={ext}")).or_insert(0) += 1;
   // encode
   let id = svc_url(CORE_DID, "rev-a");
   let svc = match guard(|| bm.to_service(id.clone())) {
@@ -265,8 +498,20 @@ fn eval_set(ctx: &Ctx, case: &Case) {
     Ok(Err(e)) => return ctx.violation("RevocationBitmap::to_service|rejected", &format!("{e}"), case),
     Ok(Ok(s)) => s,
   };
-  let text = match endpoint_text(&svc) {
-    Some(t) if svc.type_().contains(RevocationBitmap::TYPE) && svc.id() == &id => t,
+  // documented: id = the given id, type RevocationBitmap2022, the bitmap in a data url in the endpoint. The exact
+  // media-type prefix is the specification's; a differing prefix is recorded, not judged.
+  let data_url = match svc.service_endpoint() {
+    ServiceEndpoint::One(u) if u.as_str().starts_with("data:") => Some(u.as_str().to_owned()),
+    _ => None,
+  };
+  let text = match data_url {
+    Some(u) if svc.type_().contains(RevocationBitmap::TYPE) && svc.id() == &id => match u.strip_prefix(DATA_URL) {
+      Some(t) => t.to_owned(),
+      None => {
+        *local.entry("unjudged:to_service:data-url-prefix-differs-from-the-specification".into()).or_insert(0) += 1;
+        u.split_once(',').map(|(_, t)| t.to_owned()).unwrap_or_default()
+      }
+    },
     _ => return ctx.violation("RevocationBitmap::to_service|not-a-bitmap-service-with-data-url", &format!("{svc:?}"), case),
   };
   let third: String = text.chars().take(3).collect();
@@ -279,21 +524,43 @@ fn eval_set(ctx: &Ctx, case: &Case) {
       }
       other => ctx.violation("RevocationBitmap::to_service|service-json-round-trip-failed", &format!("{:?}", other.map(|o| o.is_some())), case),
     }
+    // the other construction of the same set encodes to something that decodes to the same set
+    match guard(|| if ext { Some(bm_alt.to_service(id.clone())) } else { None }) {
+      Ok(None) => {}
+      Ok(Some(Ok(svc_alt))) => {
+        decode_and_compare(ctx, case, &svc_alt, &elems, &probes, K_OWN_REJECTED, K_OWN_DIFFERS, "to_service output of the set built by shrinking a superset");
+      }
+      Ok(Some(Err(e))) => ctx.violation("RevocationBitmap::to_service|rejected", &format!("set built by shrinking a superset: {e}"), case),
+      Err(p) => ctx.violation(&format!("RevocationBitmap::to_service|{}", p.key()), &p.msg, case),
+    }
     if elems.len() <= 4096 {
       let doc = guard(|| CoreDocument::builder(Object::new()).id(id.did().clone()).service(svc.clone()).build());
       match doc {
         Ok(Ok(doc)) => match guard(|| doc.resolve_revocation_bitmap((&id).into())) {
-          Ok(Ok(back)) if guard(|| set_diff(&back, &elems, &probes)).ok().flatten().is_none() && back == bm => {}
-          other => ctx.violation("resolve_revocation_bitmap|round-trip|differs-or-rejected", &format!("{:?}", other.map(|r| r.map(|b| b.len()))), case),
+          Ok(Ok(back)) => {
+            if let Some(d) = guard(|| set_diff(&back, &elems, &probes)).unwrap_or_else(|p| Some(p.msg)) {
+              ctx.violation("resolve_revocation_bitmap|round-trip|decoded-set-differs", &d, case);
+            } else if back != bm {
+              // "decoding back unchanged": the decoded value compares equal to the encoded one
+              ctx.violation("resolve_revocation_bitmap|round-trip|same-set-but-not-equal-to-the-original", &format!("{} members", back.len()), case);
+            }
+          }
+          Ok(Err(e)) => ctx.violation("resolve_revocation_bitmap|round-trip|rejected", &format!("{e}"), case),
+          Err(p) => ctx.violation(&format!("resolve_revocation_bitmap|{}", p.key()), &p.msg, case),
         },
         other => ctx.violation("CoreDocument::builder|bitmap-service-rejected", &format!("{:?}", other.map(|r| r.is_ok())), case),
       }
     }
+    if ext {
+      eval_set_through_documents(ctx, case, &elems, &probes, &mut local);
+    }
   }
   // harness-built twins
-  let z = zlib_roaring(&elems);
+  let ser = roaring_std(&elems);
+  let z = zlib_default(&ser);
   let single = single_text(&z);
   let legacy = legacy_text(&z);
+  let legacy_unpadded = legacy_text_unpadded(&z);
   let twin_same = single == text;
   let leg = decode_and_compare(
     ctx,
@@ -301,15 +568,18 @@ fn eval_set(ctx: &Ctx, case: &Case) {
     &service_with_text(CORE_DID, "rev-a", &legacy),
     &elems,
     &probes,
-    K_LEGACY_REJECTED,
+    if legacy == legacy_unpadded { K_LEGACY_REJECTED } else { K_LEGACY_PADDED_REJECTED },
     K_LEGACY_DIFFERS,
-    "legacy double encoding Base64(Base64Url(zlib(roaring)))",
+    "legacy double encoding Base64-padded(Base64Url(zlib(roaring)))",
   );
-  let mut local: BTreeMap<String, u64> = BTreeMap::new();
-  let mut bump = |l: String| *local.entry(l).or_insert(0) += 1;
-  bump(format!("set:{fam}:prefix={third}:own={own}:legacy={leg}"));
-  bump(format!("deflate-class:{third}"));
-  bump(format!("harness-single-text-identical-to-library={twin_same}"));
+  macro_rules! bump {
+    ($l:expr) => {
+      *local.entry($l).or_insert(0) += 1
+    };
+  }
+  bump!(format!("set:{fam}:prefix={third}:own={own}:legacy={leg}"));
+  bump!(format!("deflate-class:{third}"));
+  bump!(format!("harness-single-text-identical-to-library={twin_same}"));
   // recorded, not judged: forms the statement does not pin down
   let unjudged = |svc: Service| -> &'static str {
     match guard(|| RevocationBitmap::try_from(&svc)) {
@@ -325,19 +595,215 @@ fn eval_set(ctx: &Ctx, case: &Case) {
     }
   };
   if !twin_same {
-    bump(format!("unjudged:harness-single-text:{}", unjudged(service_with_text(CORE_DID, "rev-a", &single))));
+    bump!(format!("unjudged:harness-single-text:{}", unjudged(service_with_text(CORE_DID, "rev-a", &single))));
   }
-  if single.len() % 3 != 0 {
-    let padded = b64(single.as_bytes(), false, true);
-    bump(format!("unjudged:legacy-with-padded-outer-layer:{}", unjudged(service_with_text(CORE_DID, "rev-a", &padded))));
+  bump!(format!("legacy-outer-layer-{}", if legacy == legacy_unpadded { "needs-no-padding" } else { "padded" }));
+  if legacy != legacy_unpadded {
+    bump!(format!("unjudged:legacy-with-unpadded-outer-layer:{}", unjudged(service_with_text(CORE_DID, "rev-a", &legacy_unpadded))));
   }
   let inner_std = b64(&z, false, false);
   if inner_std != single {
     let lit = b64(inner_std.as_bytes(), true, false);
-    bump(format!("unjudged:legacy-with-standard-alphabet-inner-layer:{}", unjudged(service_with_text(CORE_DID, "rev-a", &lit))));
+    bump!(format!("unjudged:legacy-with-standard-alphabet-inner-layer:{}", unjudged(service_with_text(CORE_DID, "rev-a", &lit))));
+  }
+  // (d) the same serialisation compressed at other zlib levels (a conformant endpoint of another implementation):
+  // whether it decodes is recorded; decoding to ANOTHER set is judged.
+  for level in [0u32, 1, 9].into_iter().filter(|_| ext) {
+    let t = single_text(&zlib_level(&ser, level));
+    let head: String = t.chars().take(2).collect();
+    let r = unjudged(service_with_text(CORE_DID, "rev-a", &t));
+    if r == "decodes-to-other-set" {
+      ctx.violation(K_FOREIGN_DIFFERS, &format!("zlib level {level} endpoint (starts `{head}`) of a {}-member set decodes to another set", elems.len()), case);
+    }
+    bump!(format!("unjudged:zlib-level-{level}:starts-{head}:{r}"));
+  }
+  // (d) run-container streams
+  for policy in [RunPolicy::All, RunPolicy::Alternate, RunPolicy::Smallest].into_iter().filter(|_| ext) {
+    let Some(stream) = run_stream(&elems, policy, None) else {
+      bump!(format!("run-stream:{}:not-applicable(no run container)", policy.name()));
+      continue;
+    };
+    eval_run_stream(ctx, case, &elems, &probes, policy, &stream, &bm, &mut local);
+  }
+  // recorded: a run container without runs next to the real ones (not a valid stream; roaring accepts it)
+  let free_key = if ext && elems.len() <= 4096 { (0..=u16::MAX).rev().find(|k| elems.iter().all(|e| (e >> 16) as u16 != *k)) } else { None };
+  if let Some(free_key) = free_key {
+    if let Some(stream) = run_stream(&elems, RunPolicy::All, Some(free_key)) {
+      let svc = service_with_text(CORE_DID, "rev-a", &single_text(&zlib_default(&stream)));
+      let label = match guard(|| RevocationBitmap::try_from(&svc)) {
+        Err(p) => {
+          ctx.violation(&format!("RevocationBitmap::try_from(&Service)|{}", p.key()), &format!("stream with an empty run container: {}", p.msg), case);
+          "panic"
+        }
+        Ok(Err(_)) => "rejected",
+        Ok(Ok(b)) => {
+          // accepted: then it is a bitmap like any other and must hold the set and survive re-encoding
+          if let Some(d) = guard(|| set_diff(&b, &elems, &probes)).unwrap_or_else(|p| Some(format!("panic: {}", p.msg))) {
+            ctx.violation(K_RUN_DIFFERS, &format!("stream with an additional empty run container: {d}"), case);
+          }
+          reencode(ctx, case, &b, &elems, &probes, "bitmap decoded from a stream with an empty run container");
+          "accepted"
+        }
+      };
+      *local.entry(format!("unjudged:stream-with-empty-run-container:{label}")).or_insert(0) += 1;
+    }
   }
   ctx.outcomes_merge(&local);
   ctx.distinct(&serde_json::to_string(case).unwrap_or_default());
+}
+
+/// `b` (decoded from a foreign endpoint) must itself survive `to_service` -> `try_from`.
+fn reencode(ctx: &Ctx, case: &Case, b: &RevocationBitmap, elems: &[u32], probes: &[u32], what: &str) {
+  match guard(|| b.to_service(svc_url(CORE_DID, "rev-a"))) {
+    Err(p) => ctx.violation(&format!("RevocationBitmap::to_service|{}", p.key()), &format!("{what}: {}", p.msg), case),
+    Ok(Err(e)) => ctx.violation("RevocationBitmap::to_service|rejected", &format!("{what}: {e}"), case),
+    Ok(Ok(svc)) => {
+      decode_and_compare(ctx, case, &svc, elems, probes, K_REENC_REJECTED, K_REENC_DIFFERS, &format!("re-encoded {what}"));
+    }
+  }
+}
+
+/// (d) one run-container stream of the set: decode (judged), re-encode (judged), update through a document (judged).
+#[allow(clippy::too_many_arguments)]
+fn eval_run_stream(ctx: &Ctx, case: &Case, elems: &[u32], probes: &[u32], policy: RunPolicy, stream: &[u8], bm: &RevocationBitmap, local: &mut BTreeMap<String, u64>) {
+  // harness self-check: the trusted decoder reads the harness-written stream as the intended set
+  match roaring::RoaringBitmap::deserialize_from(stream) {
+    Ok(rb) if rb.len() == elems.len() as u64 && rb.iter().eq(elems.iter().copied()) => {}
+    other => ctx.require(false, &format!("harness run-container writer ({}) produced a stream the roaring crate reads as {:?}", policy.name(), other.map(|r| r.len()))),
+  }
+  let text = single_text(&zlib_default(stream));
+  let svc = service_with_text(CORE_DID, "rev-a", &text);
+  let what = format!("run-container stream ({} containers as runs)", policy.name());
+  let label = match guard(|| RevocationBitmap::try_from(&svc)) {
+    Err(p) => {
+      ctx.violation(&format!("RevocationBitmap::try_from(&Service)|{}", p.key()), &format!("{what}: {}", p.msg), case);
+      "panic"
+    }
+    Ok(Err(e)) => {
+      ctx.violation(K_RUN_REJECTED, &format!("{what} of a {}-member set is rejected: {e}", elems.len()), case);
+      "rejected"
+    }
+    Ok(Ok(b)) => match guard(|| set_diff(&b, elems, probes)) {
+      Err(p) => {
+        ctx.violation(&format!("RevocationBitmap::is_revoked|{}", p.key()), &p.msg, case);
+        "panic"
+      }
+      Ok(Some(d)) => {
+        ctx.violation(K_RUN_DIFFERS, &format!("{what}: {d}"), case);
+        "differs"
+      }
+      Ok(None) => {
+        *local.entry(format!("unjudged:bitmap-from-run-stream-compares-equal-to-built-one={}", &b == bm)).or_insert(0) += 1;
+        reencode(ctx, case, &b, elems, probes, &format!("bitmap decoded from a {what}"));
+        // through a document: one index in, one index out
+        if let Some(doc) = doc_with_service(0, &svc) {
+          let add = probes.first().copied();
+          let del = elems.last().copied();
+          let mut d = doc.clone();
+          let q = svc_url(CORE_DID, "rev-a");
+          let mut want: Vec<u32> = elems.to_vec();
+          let mut ok = true;
+          if let Some(x) = add {
+            match guard(|| d.apply(&q, true, &[x])) {
+              Err(p) => {
+                ctx.violation(&format!("revoke_credentials|{}", p.key()), &format!("{what}: {}", p.msg), case);
+                ok = false;
+              }
+              Ok(Err(e)) => {
+                ctx.violation("revoke_credentials|permitted-op-rejected", &format!("service holding a {what}: {e}"), case);
+                ok = false;
+              }
+              Ok(Ok(())) => {
+                want.push(x);
+                want.sort_unstable();
+              }
+            }
+          }
+          if let (true, Some(x)) = (ok, del) {
+            match guard(|| d.apply(&q, false, &[x])) {
+              Err(p) => {
+                ctx.violation(&format!("unrevoke_credentials|{}", p.key()), &format!("{what}: {}", p.msg), case);
+                ok = false;
+              }
+              Ok(Err(e)) => {
+                ctx.violation("unrevoke_credentials|permitted-op-rejected", &format!("service holding a {what}: {e}"), case);
+                ok = false;
+              }
+              Ok(Ok(())) => want.retain(|e| *e != x),
+            }
+          }
+          if ok {
+            let p2: Vec<u32> = probes.iter().copied().filter(|p| Some(*p) != add).chain(del).collect();
+            match doc_set_diff(&d, "rev-a", &want, &p2, K_REENC_REJECTED) {
+              Ok(None) => {}
+              Ok(Some(diff)) => ctx.violation("revoke_credentials|run-container-endpoint|resulting-set-differs", &format!("{what}, +{add:?} -{del:?}: {diff}"), case),
+              Err((key, e)) => ctx.violation(&key, &format!("endpoint written by revoke/unrevoke_credentials over a {what}: {e}"), case),
+            }
+          }
+        }
+        "ok"
+      }
+    },
+  };
+  *local.entry(format!("run-stream:{}:{label}", policy.name())).or_insert(0) += 1;
+}
+
+/// The whole set revoked through a document in ONE batch (CoreDocument; IotaDocument too for small sets), then every
+/// second member un-revoked in one batch; `check_status` of the first / last member and one non-member.
+fn eval_set_through_documents(ctx: &Ctx, case: &Case, elems: &[u32], probes: &[u32], local: &mut BTreeMap<String, u64>) {
+  let kinds: &[u8] = if elems.len() <= 64 { &[0, 1] } else { &[0] };
+  for &kind in kinds {
+    let did = if kind == 0 { CORE_DID } else { IOTA_DID };
+    let q = svc_url(did, "rev-a");
+    let Ok(Ok(empty)) = guard(|| RevocationBitmap::new().to_service(q.clone())) else {
+      return ctx.violation("RevocationBitmap::to_service|rejected", "empty bitmap", case);
+    };
+    let Some(mut doc) = doc_with_service(kind, &empty) else {
+      return ctx.violation("CoreDocument::builder|bitmap-service-rejected", "document with an empty bitmap service", case);
+    };
+    let steps: [(bool, Vec<u32>, Vec<u32>); 2] = [
+      (true, elems.to_vec(), elems.to_vec()),
+      (false, elems.iter().copied().skip(1).step_by(2).collect(), elems.iter().copied().step_by(2).collect()),
+    ];
+    for (revoke, batch, want) in steps {
+      let op = if revoke { "revoke_credentials" } else { "unrevoke_credentials" };
+      match guard(|| doc.apply(&q, revoke, &batch)) {
+        Err(p) => return ctx.violation(&format!("{op}|{}", p.key()), &p.msg, case),
+        Ok(Err(e)) => return ctx.violation(&format!("{op}|permitted-op-rejected"), &format!("{} batch of {} indices: {e}", doc.kind(), batch.len()), case),
+        Ok(Ok(())) => {}
+      }
+      // non-members now: the fixed probes plus what the batch removed
+      let mut p2: Vec<u32> = probes.to_vec();
+      if !revoke {
+        p2.extend(batch.iter().copied());
+      }
+      match doc_set_diff(&doc, "rev-a", &want, &p2, K_OWN_REJECTED) {
+        Ok(None) => {}
+        Ok(Some(d)) => return ctx.violation(&format!("{op}|one-batch|resulting-set-differs"), &format!("{} batch of {} indices: {d}", doc.kind(), batch.len()), case),
+        Err((key, e)) => return ctx.violation(&key, &format!("{}: the endpoint written by {op} with a batch of {} indices is rejected: {e}", doc.kind(), batch.len()), case),
+      }
+      // validation against the large bitmap
+      let mut idx: Vec<(u32, bool)> = Vec::new();
+      idx.extend(want.first().map(|i| (*i, true)));
+      idx.extend(want.last().map(|i| (*i, true)));
+      idx.extend(p2.last().map(|i| (*i, false)));
+      for (i, member) in idx {
+        let cred = credential(did, Some(RevocationBitmapStatus::new(q.clone(), i).into()));
+        match guard(|| doc.check_status(&cred, StatusCheck::Strict)) {
+          Err(p) => ctx.violation(&format!("check_status|{}", p.key()), &p.msg, case),
+          Ok(r) => {
+            let got = res_label(&r);
+            let want = if member { "Revoked" } else { "Ok" };
+            if got != want {
+              let class = if member { format!("member|reported-{}", if got == "Ok" { "valid" } else { got }) } else { format!("non-member|reported-{got}") };
+              ctx.violation(&format!("check_status|{class}"), &format!("{} index {i} after {op} of {} indices: got {got}", doc.kind(), batch.len()), case);
+            }
+            *local.entry(format!("status:after-one-batch:{got}")).or_insert(0) += 1;
+          }
+        }
+      }
+    }
+  }
 }
 
 // ------------------------------------------------------------------ (b) + (c): histories on a real document
@@ -404,14 +870,61 @@ fn probes_of(uni: u8) -> Vec<u32> {
   p.into_iter().collect()
 }
 const SVC: [&str; 2] = ["rev-a", "rev-b"];
-/// initial members of the two services when the start endpoints are legacy
-fn legacy_init(k: usize) -> Vec<u32> {
-  if k == 0 {
-    vec![1, 65536]
-  } else {
-    vec![]
+/// Initial members of the two services. init 0: both fresh (empty, written by the library); init 1: legacy double
+/// encoding; init 2: rev-a is a run-container stream of another implementation holding three runs over three
+/// containers (overlapping the universe), rev-b a library-written dense set of 4097 members — un-revoking universe
+/// indices 0 / 1 takes its container across the 4096-member representation switch and back.
+fn init_members(init: u8, k: usize) -> Vec<u32> {
+  match (init, k) {
+    (1, _) => legacy_start_members(k),
+    (2, 0) => (10..20).chain(65_530..65_542).chain([u32::MAX - 1, u32::MAX]).collect(),
+    (2, _) => (0..4097).collect(),
+    _ => vec![],
   }
 }
+/// Start sets of the legacy start state: the first set of a fixed candidate list whose legacy endpoint needs no
+/// padding (padded and unpadded form coincide, so the start state decodes whichever of the two a tree accepts and the
+/// model does not become vacuous on a tree that refuses one of them). rev-a: subsets of the 4-index universe holding
+/// at least two indices, rev-b: the empty set first, then small sets.
+fn legacy_start_members(k: usize) -> Vec<u32> {
+  let mut cands: Vec<Vec<u32>> = Vec::new();
+  if k == 0 {
+    cands.push(vec![1, 65536]);
+    for mask in 1u32..16 {
+      let v: Vec<u32> = (0..4).filter(|b| mask & (1 << b) != 0).map(|b| UNI4[b]).collect();
+      if v.len() >= 2 {
+        cands.push(v);
+      }
+    }
+  } else {
+    cands.push(vec![]);
+    for a in [2u32, 3, 5, 7, 70_000, 0x7fff_ffff] {
+      cands.push(vec![a]);
+      cands.push(vec![a, a + 2]);
+    }
+  }
+  cands
+    .into_iter()
+    .find(|m| single_text(&zlib_roaring(m)).len() % 3 == 0)
+    .expect("a candidate start set whose legacy endpoint needs no padding")
+}
+fn init_name(init: u8) -> &'static str {
+  match init {
+    0 => "fresh",
+    1 => "legacy",
+    _ => "run-container-stream+dense",
+  }
+}
+/// Key under which a start endpoint that does not decode (or decodes to another set) is reported.
+fn start_keys(init: u8, k: usize) -> (&'static str, &'static str) {
+  match (init, k) {
+    (1, _) => (K_LEGACY_REJECTED, K_LEGACY_DIFFERS),
+    (2, 0) => (K_RUN_REJECTED, K_RUN_DIFFERS),
+    _ => (K_OWN_REJECTED, K_OWN_DIFFERS),
+  }
+}
+const OTHER_CORE_DID: &str = "did:example:5678";
+const OTHER_IOTA_DID: &str = "did:iota:0xbbbbbbbbbbbbbbbbbbbbbbbbbbbbbbbbbbbbbbbbbbbbbbbbbbbbbbbbbbbbbbbb";
 
 #[derive(Clone, Debug)]
 enum RealDoc {
@@ -424,6 +937,10 @@ impl RealDoc {
       RealDoc::Core(_) => CORE_DID,
       RealDoc::Iota(_) => IOTA_DID,
     }
+  }
+  /// the document's actual DID (the `other` document lives under another one)
+  fn did_str(&self) -> &str {
+    self.core().id().as_str()
   }
   fn kind(&self) -> &'static str {
     match self {
@@ -458,29 +975,46 @@ impl RealDoc {
       (RealDoc::Iota(d), false) => d.unrevoke_credentials(q, idx).map_err(|e| e.to_string()),
     }
   }
+  /// The same ops with the service named by a string query (fragment, `#fragment`, full DID URL text).
+  fn apply_str(&mut self, q: &str, revoke: bool, idx: &[u32]) -> Result<(), String> {
+    match (self, revoke) {
+      (RealDoc::Core(d), true) => d.revoke_credentials(q, idx).map_err(|e| e.to_string()),
+      (RealDoc::Core(d), false) => d.unrevoke_credentials(q, idx).map_err(|e| e.to_string()),
+      (RealDoc::Iota(d), true) => d.revoke_credentials(q, idx).map_err(|e| e.to_string()),
+      (RealDoc::Iota(d), false) => d.unrevoke_credentials(q, idx).map_err(|e| e.to_string()),
+    }
+  }
   fn check_status(&self, cred: &Credential, mode: StatusCheck) -> Result<(), JwtValidationError> {
     match self {
       RealDoc::Core(d) => JwtCredentialValidatorUtils::check_status(cred, std::slice::from_ref(d), mode),
       RealDoc::Iota(d) => JwtCredentialValidatorUtils::check_status(cred, std::slice::from_ref(d), mode),
     }
   }
-}
-
-fn start_doc(kind: u8, init: u8) -> (RealDoc, [BTreeSet<u32>; 2]) {
-  let did = if kind == 0 { CORE_DID } else { IOTA_DID };
-  let mut model: [BTreeSet<u32>; 2] = [BTreeSet::new(), BTreeSet::new()];
-  let mut texts = Vec::new();
-  for k in 0..2 {
-    if init == 0 {
-      let svc = RevocationBitmap::new().to_service(svc_url(did, SVC[k])).expect("fresh service");
-      texts.push(endpoint_text(&svc).expect("fresh endpoint"));
-    } else {
-      let m = legacy_init(k);
-      texts.push(legacy_text(&zlib_roaring(&m)));
-      model[k] = m.into_iter().collect();
+  /// `check_status` with two offered issuer documents: `other` (same kind) before or after `self`.
+  fn check_status_with(&self, other: &RealDoc, other_first: bool, cred: &Credential, mode: StatusCheck) -> Result<(), JwtValidationError> {
+    match (self, other) {
+      (RealDoc::Core(d), RealDoc::Core(o)) => {
+        let v = if other_first { [o.clone(), d.clone()] } else { [d.clone(), o.clone()] };
+        JwtCredentialValidatorUtils::check_status(cred, &v, mode)
+      }
+      (RealDoc::Iota(d), RealDoc::Iota(o)) => {
+        let v = if other_first { [o.clone(), d.clone()] } else { [d.clone(), o.clone()] };
+        JwtCredentialValidatorUtils::check_status(cred, &v, mode)
+      }
+      _ => unreachable!("documents of one kind"),
     }
   }
-  let core = json!({
+  /// The direct entry point below `check_status`.
+  fn check_bitmap_status(&self, status: RevocationBitmapStatus) -> Result<(), JwtValidationError> {
+    match self {
+      RealDoc::Core(d) => JwtCredentialValidatorUtils::check_revocation_bitmap_status(d, status),
+      RealDoc::Iota(d) => JwtCredentialValidatorUtils::check_revocation_bitmap_status(d, status),
+    }
+  }
+}
+
+fn doc_json(did: &str, texts: &[String; 2]) -> serde_json::Value {
+  json!({
     "id": did,
     "verificationMethod": [{"id": format!("{did}#key-1"), "controller": did, "type": "Ed25519VerificationKey2018", "publicKeyMultibase": "zJdzr2UvC"}],
     "authentication": [
@@ -492,31 +1026,68 @@ fn start_doc(kind: u8, init: u8) -> (RealDoc, [BTreeSet<u32>; 2]) {
       {"id": format!("{did}#linked"), "type": "LinkedDomains", "serviceEndpoint": "https://example.com/"},
       {"id": format!("{did}#rev-b"), "type": "RevocationBitmap2022", "serviceEndpoint": format!("{DATA_URL}{}", texts[1])}
     ]
-  });
-  let doc = if kind == 0 {
-    RealDoc::Core(CoreDocument::from_json_value(core).expect("start CoreDocument"))
+  })
+}
+fn real_doc(kind: u8, core: serde_json::Value) -> RealDoc {
+  if kind == 0 {
+    RealDoc::Core(CoreDocument::from_json_value(core).expect("CoreDocument"))
   } else {
     RealDoc::Iota(
-      IotaDocument::from_json_value(json!({"doc": core, "meta": {"created": "2023-01-01T00:00:00Z", "updated": "2023-01-02T00:00:00Z"}}))
-        .expect("start IotaDocument"),
+      IotaDocument::from_json_value(json!({"doc": core, "meta": {"created": "2023-01-01T00:00:00Z", "updated": "2023-01-02T00:00:00Z"}})).expect("IotaDocument"),
     )
-  };
-  (doc, model)
+  }
+}
+/// Endpoint text of a set written by the library itself.
+fn library_text(did: &str, frag: &str, members: &[u32]) -> String {
+  let mut bm = RevocationBitmap::new();
+  for m in members {
+    bm.revoke(*m);
+  }
+  endpoint_text(&bm.to_service(svc_url(did, frag)).expect("service")).expect("data url endpoint")
 }
 
-/// The document as a JSON tree with the endpoint of service `frag` blanked.
-fn masked(json: &str, did: &str, frag: &str) -> serde_json::Value {
+fn start_doc(kind: u8, init: u8) -> (RealDoc, [BTreeSet<u32>; 2]) {
+  let did = if kind == 0 { CORE_DID } else { IOTA_DID };
+  let mut model: [BTreeSet<u32>; 2] = [BTreeSet::new(), BTreeSet::new()];
+  let mut texts: [String; 2] = [String::new(), String::new()];
+  for k in 0..2 {
+    let m = init_members(init, k);
+    texts[k] = match (init, k) {
+      (1, _) => legacy_text(&zlib_roaring(&m)),
+      (2, 0) => single_text(&zlib_default(&run_stream(&m, RunPolicy::All, None).expect("run stream"))),
+      _ => library_text(did, SVC[k], &m),
+    };
+    model[k] = m.into_iter().collect();
+  }
+  (real_doc(kind, doc_json(did, &texts)), model)
+}
+
+/// A second document of the same kind under ANOTHER DID whose services carry the same fragments and hold exactly the
+/// probe indices that `model` does not hold.
+fn other_doc(kind: u8, uni: u8, model: &[BTreeSet<u32>; 2]) -> RealDoc {
+  let did = if kind == 0 { OTHER_CORE_DID } else { OTHER_IOTA_DID };
+  let texts: [String; 2] = [0, 1].map(|k| {
+    let comp: Vec<u32> = probes_of(uni).into_iter().filter(|i| !model[k].contains(i)).collect();
+    library_text(did, SVC[k], &comp)
+  });
+  real_doc(kind, doc_json(did, &texts))
+}
+
+/// (core document as a JSON tree with the endpoint of service `frag` blanked and the services sorted by id — no order
+/// of services is promised —, metadata of an IotaDocument).
+fn masked(json: &str, did: &str, frag: &str) -> (serde_json::Value, serde_json::Value) {
   let mut v: serde_json::Value = serde_json::from_str(json).unwrap_or(serde_json::Value::Null);
   let id = format!("{did}#{frag}");
-  let doc = if v.get("doc").is_some() { &mut v["doc"] } else { &mut v };
+  let (mut doc, meta) = if v.get("doc").is_some() { (v["doc"].take(), v["meta"].take()) } else { (v, serde_json::Value::Null) };
   if let Some(list) = doc.get_mut("service").and_then(|s| s.as_array_mut()) {
-    for s in list {
+    for s in list.iter_mut() {
       if s.get("id").and_then(|i| i.as_str()) == Some(&id) {
         s["serviceEndpoint"] = serde_json::Value::Null;
       }
     }
+    list.sort_by_key(|s| s.get("id").map(|i| i.to_string()).unwrap_or_default());
   }
-  v
+  (doc, meta)
 }
 
 fn credential(issuer: &str, status: Option<Status>) -> Credential {
@@ -576,10 +1147,22 @@ struct HModel {
   max_len: u8,
   /// canonical-status credentials per service and probe index (built once)
   creds: Vec<Vec<(u32, Credential)>>,
+  /// indices whose membership is compared after every step: the universe and its +-1 neighbours, every initial
+  /// member and its +-1 neighbours
+  mprobes: Vec<u32>,
   col: Arc<Collector>,
   /// fingerprints whose per-state checks (validation, dangling queries) have been done
   seen: Mutex<HashSet<String>>,
 }
+
+/// First difference between the bitmaps held by a real document and the model.
+enum Diff {
+  Panic(vx::guard::Panicked),
+  Rejected(usize, String),
+  Member(usize, u32, bool),
+  Card(usize, u64),
+}
+
 impl HModel {
   fn new(kind: u8, init: u8, uni: u8, max_len: u8, col: Arc<Collector>) -> HModel {
     let did = if kind == 0 { CORE_DID } else { IOTA_DID };
@@ -591,68 +1174,91 @@ impl HModel {
           .collect()
       })
       .collect();
-    HModel { kind, init, uni, max_len, creds, col, seen: Mutex::new(HashSet::new()) }
+    let mut mp: BTreeSet<u32> = probes_of(uni).into_iter().collect();
+    for k in 0..2 {
+      for i in init_members(init, k) {
+        mp.insert(i);
+        mp.insert(i.wrapping_add(1));
+        mp.insert(i.wrapping_sub(1));
+      }
+    }
+    HModel { kind, init, uni, max_len, creds, mprobes: mp.into_iter().collect(), col, seen: Mutex::new(HashSet::new()) }
   }
   fn case(&self, hist: &[(u8, bool, u8)]) -> Case {
     Case::Hist { kind: self.kind, init: self.init, uni: self.uni, ops: hist.to_vec() }
   }
 
+  fn diff(&self, doc: &RealDoc, model: &[BTreeSet<u32>; 2]) -> Option<Diff> {
+    let did = doc.did();
+    for k in 0..2 {
+      let q = svc_url(did, SVC[k]);
+      let bm = match guard(|| doc.core().resolve_revocation_bitmap((&q).into())) {
+        Err(p) => return Some(Diff::Panic(p)),
+        Ok(Err(e)) => return Some(Diff::Rejected(k, e.to_string())),
+        Ok(Ok(bm)) => bm,
+      };
+      for &i in &self.mprobes {
+        let got = bm.is_revoked(i);
+        if got != model[k].contains(&i) {
+          return Some(Diff::Member(k, i, got));
+        }
+      }
+      if bm.len() != model[k].len() as u64 {
+        return Some(Diff::Card(k, bm.len()));
+      }
+    }
+    None
+  }
+
   /// Both services decode and agree with the model on every probe index. `target` = (service, batch, op name) of
   /// the op that led here, if any.
   fn check_membership(&self, s: &HState, target: Option<(usize, &[u32], &str)>, case: &Case) -> bool {
-    let did = s.doc.did();
-    for k in 0..2 {
-      let q = svc_url(did, SVC[k]);
-      let bm = match guard(|| s.doc.core().resolve_revocation_bitmap((&q).into())) {
-        Err(p) => {
-          self.col.violation(&format!("resolve_revocation_bitmap|{}", p.key()), &p.msg, case);
-          return false;
-        }
-        Ok(Err(e)) => {
-          match target {
-            Some((t, _, op)) if t == k => self.col.violation(
-              K_OWN_REJECTED,
-              &format!("{}: the endpoint written by {op} (members {:?}) is rejected: {e}", s.doc.kind(), s.model[k]),
-              case,
-            ),
-            Some((_, _, op)) => self.col.violation(&format!("{op}|untouched-service-no-longer-decodes"), &format!("service {}: {e}", SVC[k]), case),
-            None => self.col.violation(K_LEGACY_REJECTED, &format!("start endpoint of {} is rejected: {e}", SVC[k]), case),
-          }
-          return false;
-        }
-        Ok(Ok(bm)) => bm,
-      };
-      for i in probes_of(self.uni) {
-        let want = s.model[k].contains(&i);
-        let got = bm.is_revoked(i);
-        if got != want {
-          match target {
-            Some((t, b, op)) => {
-              let class = if t != k {
-                "other-service-changed"
-              } else if b.contains(&i) {
-                "requested-index-not-changed"
-              } else {
-                "other-index-changed"
-              };
-              self.col.violation(
-                &format!("{op}|membership|{class}"),
-                &format!("{} service {} index {i}: is_revoked = {got}, model {want}, after {:?}", s.doc.kind(), SVC[k], s.hist),
-                case,
-              );
-            }
-            None => self.col.violation(K_LEGACY_DIFFERS, &format!("start endpoint of {}: index {i} is_revoked = {got}", SVC[k]), case),
-          }
-          return false;
-        }
+    match self.diff(&s.doc, &s.model) {
+      None => true,
+      Some(Diff::Panic(p)) => {
+        self.col.violation(&format!("resolve_revocation_bitmap|{}", p.key()), &p.msg, case);
+        false
       }
-      if bm.len() != s.model[k].len() as u64 {
-        let op = target.map(|t| t.2).unwrap_or("start");
-        self.col.violation(&format!("{op}|membership|cardinality-differs"), &format!("service {}: len {} model {}", SVC[k], bm.len(), s.model[k].len()), case);
-        return false;
+      Some(Diff::Rejected(k, e)) => {
+        match target {
+          Some((t, _, op)) if t == k => self.col.violation(
+            K_OWN_REJECTED,
+            &format!("{}: the endpoint written by {op} ({} members) is rejected: {e}", s.doc.kind(), s.model[k].len()),
+            case,
+          ),
+          Some((_, _, op)) => self.col.violation(&format!("{op}|untouched-service-no-longer-decodes"), &format!("service {}: {e}", SVC[k]), case),
+          None => self.col.violation(start_keys(self.init, k).0, &format!("start endpoint of {} is rejected: {e}", SVC[k]), case),
+        }
+        false
+      }
+      Some(Diff::Member(k, i, got)) => {
+        match target {
+          Some((t, b, op)) => {
+            let class = if t != k {
+              "other-service-changed"
+            } else if b.contains(&i) {
+              "requested-index-not-changed"
+            } else {
+              "other-index-changed"
+            };
+            self.col.violation(
+              &format!("{op}|membership|{class}"),
+              &format!("{} service {} index {i}: is_revoked = {got}, model {}, after {:?}", s.doc.kind(), SVC[k], !got, s.hist),
+              case,
+            );
+          }
+          None => self.col.violation(start_keys(self.init, k).1, &format!("start endpoint of {}: index {i} is_revoked = {got}", SVC[k]), case),
+        }
+        false
+      }
+      Some(Diff::Card(k, len)) => {
+        match target {
+          Some((_, _, op)) => self.col.violation(&format!("{op}|membership|cardinality-differs"), &format!("service {}: len {len} model {}", SVC[k], s.model[k].len()), case),
+          None => self.col.violation(start_keys(self.init, k).1, &format!("start endpoint of {}: len {len} model {}", SVC[k], s.model[k].len()), case),
+        }
+        false
       }
     }
-    true
   }
 
   /// (c), every step: `check_status` (Strict) of a credential whose canonical status entry points at each probe
@@ -662,21 +1268,27 @@ impl HModel {
       for (i, cred) in &self.creds[k] {
         let member = s.model[k].contains(i);
         self.col.eval1();
-        match guard(|| s.doc.check_status(cred, StatusCheck::Strict)) {
-          Err(p) => self.col.violation(&format!("check_status|{}", p.key()), &p.msg, case),
-          Ok(r) => {
-            let got = res_label(&r);
-            let want = if member { "Revoked" } else { "Ok" };
-            if got != want {
-              let class = if member { format!("member|reported-{}", if got == "Ok" { "valid" } else { got }) } else { format!("non-member|reported-{got}") };
-              self.col.violation(
-                &format!("check_status|{class}"),
-                &format!("{} Strict service {} index {i}: got {got}, members {:?}, after {:?}", s.doc.kind(), SVC[k], s.model[k], s.hist),
-                case,
-              );
-            }
-          }
+        let r = guard(|| s.doc.check_status(cred, StatusCheck::Strict));
+        self.judge_canonical(s, "check_status", &format!("Strict service {} index {i}", SVC[k]), r, member, case);
+      }
+    }
+  }
+  /// Canonical entry (written by `RevocationBitmapStatus::new`), service present, issuer document offered: the family
+  /// the statement describes — `Revoked` iff member, otherwise the check passes.
+  fn judge_canonical(&self, s: &HState, entry: &str, what: &str, r: Result<Result<(), JwtValidationError>, vx::guard::Panicked>, member: bool, case: &Case) -> &'static str {
+    match r {
+      Err(p) => {
+        self.col.violation(&format!("{entry}|{}", p.key()), &p.msg, case);
+        "panic"
+      }
+      Ok(r) => {
+        let got = res_label(&r);
+        let want = if member { "Revoked" } else { "Ok" };
+        if got != want {
+          let class = if member { format!("member|reported-{}", if got == "Ok" { "valid" } else { got }) } else { format!("non-member|reported-{got}") };
+          self.col.violation(&format!("{entry}|{class}"), &format!("{} {what}: got {got}, after {:?}", s.doc.kind(), s.hist), case);
         }
+        got
       }
     }
   }
@@ -688,38 +1300,46 @@ impl HModel {
     }
     let did = s.doc.did();
     let u = universe(self.uni);
+    let other = other_doc(self.kind, self.uni, &s.model);
     for k in 0..2 {
       let svc = format!("{did}#{}", SVC[k]);
       for i in probes_of(self.uni) {
         let member = s.model[k].contains(&i);
         // canonical status entry
-        let st: Status = RevocationBitmapStatus::new(svc_url(did, SVC[k]), i).into();
+        let rbs = RevocationBitmapStatus::new(svc_url(did, SVC[k]), i);
+        // documented on `RevocationBitmapStatus::new`: index() is the index, the id carries `?index=<index>`
+        match guard(|| (rbs.index().ok(), rbs.id().ok().map(|u| u.to_string()))) {
+          Ok((Some(ix), Some(id))) if ix == i && id == format!("{did}?index={i}#{}", SVC[k]) => {}
+          other => self.col.violation("RevocationBitmapStatus::new|index-or-id-differs-from-documentation", &format!("index {i}: {other:?}"), case),
+        }
+        let st: Status = rbs.clone().into();
         let cred = credential(did, Some(st));
         for (mode, mname) in [(StatusCheck::Strict, "Strict"), (StatusCheck::SkipUnsupported, "SkipUnsupported")] {
           self.col.eval1();
-          match guard(|| s.doc.check_status(&cred, mode)) {
-            Err(p) => self.col.violation(&format!("check_status|{}", p.key()), &p.msg, case),
-            Ok(r) => {
-              let got = res_label(&r);
-              let want = if member { "Revoked" } else { "Ok" };
-              if got != want {
-                let class = if member && got == "Ok" {
-                  "member|reported-valid".to_string()
-                } else if member {
-                  format!("member|reported-{got}")
-                } else {
-                  format!("non-member|reported-{got}")
-                };
-                self.col.violation(
-                  &format!("check_status|{class}"),
-                  &format!("{} {mname} service {} index {i}: got {got}, members {:?}", s.doc.kind(), SVC[k], s.model[k]),
-                  case,
-                );
-              }
-              self.col.outcome(&format!("status:canonical:{mname}:{got}"));
-            }
+          let r = guard(|| s.doc.check_status(&cred, mode));
+          let got = self.judge_canonical(s, "check_status", &format!("{mname} service {} index {i}", SVC[k]), r, member, case);
+          self.col.outcome(&format!("status:canonical:{mname}:{got}"));
+          // the issuer's document is one of two offered documents; the other one (another DID) has services with the
+          // same fragments holding the complement
+          for other_first in [true, false] {
+            self.col.eval1();
+            let r = guard(|| s.doc.check_status_with(&other, other_first, &cred, mode));
+            let got = self.judge_canonical(
+              s,
+              "check_status|two-issuer-documents",
+              &format!("{mname} service {} index {i}, issuer document {}", SVC[k], if other_first { "second" } else { "first" }),
+              r,
+              member,
+              case,
+            );
+            self.col.outcome(&format!("status:two-issuer-documents:{got}"));
           }
         }
+        // the entry point below check_status
+        self.col.eval1();
+        let r = guard(|| s.doc.check_bitmap_status(rbs.clone()));
+        let got = self.judge_canonical(s, "check_revocation_bitmap_status", &format!("service {} index {i}", SVC[k]), r, member, case);
+        self.col.outcome(&format!("status:direct:{got}"));
         // SkipAll: recorded only
         if let Ok(r) = guard(|| s.doc.check_status(&cred, StatusCheck::SkipAll)) {
           self.col.outcome(&format!("status:canonical:SkipAll:{}", res_label(&r)));
@@ -733,14 +1353,28 @@ impl HModel {
           let cred = credential(did, Some(raw_status(&id, Some(&i.to_string()))));
           self.judge_open(s, &cred, "index-query-differs-from-property", &[member, s.model[k].contains(&j)], case);
         }
-        // not a number / no property: must not pass
-        for (what, id, prop) in [
-          ("index-property-missing", format!("{did}?index={i}#{}", SVC[k]), None),
-          ("index-property-not-u32", format!("{did}?index={i}#{}", SVC[k]), Some("4294967296")),
-          ("index-property-not-decimal", format!("{did}?index={i}#{}", SVC[k]), Some("0x1")),
+        // the index query names i, the property is missing / not a u32 / not decimal: whether such an entry is refused
+        // is recorded; judged is only that a member is never reported valid and a non-member never reported revoked
+        for (what, prop) in [
+          ("index-property-missing", None),
+          ("index-property-not-u32", Some("4294967296".to_string())),
+          ("index-property-not-decimal", Some("0x1".to_string())),
+          ("index-property-with-sign", Some(format!("+{i}"))),
+          ("index-property-with-leading-zero", Some(format!("0{i}"))),
         ] {
-          let cred = credential(did, Some(raw_status(&id, prop)));
-          self.must_not_pass(s, &cred, what, case);
+          let id = format!("{did}?index={i}#{}", SVC[k]);
+          let cred = credential(did, Some(raw_status(&id, prop.as_deref())));
+          self.judge_open(s, &cred, what, &[member], case);
+        }
+        // an index outside the u32 range is no member of any bitmap: never `Revoked` (2^32 + i wraps to i)
+        for (what, id) in [("index-beyond-u32|no-index-query", svc.clone()), ("index-beyond-u32|same-index-query", format!("{did}?index={}#{}", (1u64 << 32) + i as u64, SVC[k]))] {
+          let cred = credential(did, Some(raw_status(&id, Some(&((1u64 << 32) + i as u64).to_string()))));
+          self.judge_open(s, &cred, what, &[false], case);
+        }
+        // the status id names the OTHER document's service while the credential is issued by this document: recorded
+        let st: Status = RevocationBitmapStatus::new(svc_url(other.did_str(), SVC[k]), i).into();
+        if let Ok(r) = guard(|| s.doc.check_status_with(&other, false, &credential(did, Some(st)), StatusCheck::Strict)) {
+          self.col.outcome(&format!("status:unjudged:status-id-under-another-did:{}", res_label(&r)));
         }
       }
     }
@@ -752,25 +1386,61 @@ impl HModel {
     self.must_not_pass(s, &credential(did, Some(st)), "non-bitmap-service", case);
     let st: Status = RevocationBitmapStatus::new(svc_url(did, SVC[0]), i).into();
     self.must_not_pass(s, &credential("did:example:someone-else", Some(st)), "issuer-document-not-offered", case);
-    // a credential without status passes
+    // a credential without status: recorded (the statement speaks about credentials that have a status entry)
     match guard(|| s.doc.check_status(&credential(did, None), StatusCheck::Strict)) {
-      Ok(Ok(())) => self.col.outcome("status:no-status:Ok"),
-      other => self.col.violation("check_status|no-status|rejected", &format!("{:?}", other.map(|r| res_label(&r))), case),
+      Ok(r) => self.col.outcome(&format!("status:unjudged:no-status:{}", res_label(&r))),
+      Err(p) => self.col.violation(&format!("check_status|{}", p.key()), &p.msg, case),
     }
-    // revoke/unrevoke through a dangling or wrong-type query: error, document unchanged
+    // revoke/unrevoke through a dangling or wrong-type query: whether the op is refused is recorded; the bitmaps of
+    // the document keep their members either way
     for (frag, what) in [("nope", "unknown-service"), ("linked", "non-bitmap-service"), ("key-1", "method-id")] {
       for revoke in [true, false] {
         let op = if revoke { "revoke_credentials" } else { "unrevoke_credentials" };
         let mut d = s.doc.clone();
         let q = svc_url(did, frag);
-        match guard(|| d.apply(&q, revoke, &[u[0]])) {
+        let x = if revoke { u.iter().find(|i| !s.model[0].contains(i)) } else { u.iter().find(|i| s.model[0].contains(i)) }.copied().unwrap_or(u[0]);
+        match guard(|| d.apply(&q, revoke, &[x])) {
           Err(p) => self.col.violation(&format!("{op}|{}", p.key()), &p.msg, case),
-          Ok(Ok(())) => self.col.violation(&format!("{op}|{what}|accepted"), &format!("query #{frag}"), case),
-          Ok(Err(_)) => {
-            if d.json() != s.fp {
-              self.col.violation(&format!("{op}|{what}|refused-op-changed-document"), &format!("query #{frag}"), case);
+          Ok(r) => {
+            if self.diff(&d, &s.model).is_some() {
+              self.col.violation(&format!("{op}|{what}|membership-of-a-bitmap-service-changed"), &format!("query #{frag}, index {x}, after {:?}", s.hist), case);
             }
-            self.col.outcome(&format!("op:{what}:refused"));
+            let same = d.json() == s.fp;
+            self.col.outcome(&format!("op:{what}:{}:{}", if r.is_ok() { "accepted" } else { "refused" }, if same { "document-unchanged" } else { "document-changed" }));
+          }
+        }
+      }
+    }
+    // the service named by a string query instead of a DIDUrl: if the op is accepted it has the same effect
+    for k in 0..2 {
+      for (form, q) in [("#fragment", format!("#{}", SVC[k])), ("bare-fragment", SVC[k].to_string()), ("did-url-text", format!("{did}#{}", SVC[k]))] {
+        for revoke in [true, false] {
+          let op = if revoke { "revoke_credentials" } else { "unrevoke_credentials" };
+          let mut d = s.doc.clone();
+          // one index that changes state and one that does not
+          let batch: Vec<u32> = vec![u[1], u[0]];
+          match guard(|| d.apply_str(&q, revoke, &batch)) {
+            Err(p) => self.col.violation(&format!("{op}|{}", p.key()), &p.msg, case),
+            Ok(r) => {
+              let mut want = s.model.clone();
+              if r.is_ok() {
+                for i in &batch {
+                  if revoke {
+                    want[k].insert(*i);
+                  } else {
+                    want[k].remove(i);
+                  }
+                }
+              }
+              if self.diff(&d, &want).is_some() {
+                self.col.violation(
+                  &format!("{op}|string-query|{}", if r.is_ok() { "membership-differs-from-model" } else { "refused-op-changed-membership" }),
+                  &format!("{} query `{q}` batch {batch:?} after {:?}", s.doc.kind(), s.hist),
+                  case,
+                );
+              }
+              self.col.outcome(&format!("op:string-query:{form}:{}", if r.is_ok() { "accepted" } else { "refused" }));
+            }
           }
         }
       }
@@ -794,6 +1464,7 @@ impl HModel {
       }
     }
   }
+  /// The bitmap the status entry names cannot be read at all: the check must not pass (whatever the error).
   fn must_not_pass(&self, s: &HState, cred: &Credential, what: &str, case: &Case) {
     self.col.eval1();
     for mode in [StatusCheck::Strict, StatusCheck::SkipUnsupported] {
@@ -863,19 +1534,38 @@ impl Model for HModel {
       }
     }
     n.fp = n.doc.json();
-    // nothing but the target endpoint changed
-    if masked(&n.fp, did, SVC[k]) != masked(&s.fp, did, SVC[k]) {
+    // nothing but the target endpoint changed in the core document (methods, the other services and their endpoints,
+    // id and type of the target service); document metadata is recorded only
+    let (after, meta_after) = masked(&n.fp, did, SVC[k]);
+    let (before, meta_before) = masked(&s.fp, did, SVC[k]);
+    if after != before {
       self.col.violation(&format!("{op}|rest-of-document-changed"), &format!("{} after {:?}", s.doc.kind(), n.hist), &case);
       return None;
+    }
+    if meta_after != meta_before {
+      self.col.outcome("unjudged:op-changed-document-metadata");
     }
     if !self.check_membership(&n, Some((k, &idx, op)), &case) {
       return None;
     }
-    // the serialised document parses back to an equal document holding the same bitmaps
+    // the serialised document parses back to a document holding the same bitmaps (that the text is a fixpoint is
+    // recorded only)
     match guard(|| n.doc.from_json(&n.fp)) {
-      Ok(Some(back)) if back.json() == n.fp => {}
-      other => {
-        self.col.violation(&format!("{op}|document-json-round-trip-differs"), &format!("{:?}", other.map(|o| o.is_some())), &case);
+      Ok(Some(back)) => {
+        if self.diff(&back, &n.model).is_some() {
+          self.col.violation(&format!("{op}|document-json-round-trip|bitmaps-differ"), &format!("{} after {:?}", s.doc.kind(), n.hist), &case);
+          return None;
+        }
+        if back.json() != n.fp {
+          self.col.outcome("unjudged:document-json-not-a-fixpoint");
+        }
+      }
+      Ok(None) => {
+        self.col.violation(&format!("{op}|document-json-round-trip|rejected"), &format!("{} after {:?}", s.doc.kind(), n.hist), &case);
+        return None;
+      }
+      Err(p) => {
+        self.col.violation(&format!("{op}|document-json-round-trip|{}", p.key()), &p.msg, &case);
         return None;
       }
     }
@@ -932,9 +1622,10 @@ fn run_sets(ctx: &Ctx, name: &str, cases: Vec<Case>) {
 }
 
 fn generate(ctx: &Ctx) {
-  ctx.rule("(a) complete families of u32 sets (all 4096 subsets of a 12-index universe; prefix sets; strided, multiplicative-hash, run-union and dense-with-holes sets over full parameter products), each encoded by the library and decoded back + harness-built legacy twin; (b),(c) stateright BFS to closure over revoke/unrevoke batch histories on real documents, batches are ordered index sequences with duplicates; membership of both services and check_status of every probe index judged after every step, status-entry variants once per distinct real document state. distinct_nontrivial = distinct set cases (every one runs the whole encode/decode path) + unique document states of (b)");
-  ctx.assume("roaring (portable serialisation) and flate2 (zlib) are trusted lossless codecs; the harness builds legacy endpoints with them and its own base64 encoder");
-  ctx.assume("legacy form = the single text form Base64Url(zlib(roaring)) base64-encoded once more; variants on which standard and url-safe alphabets or padding would differ are recorded, not judged");
+  ctx.rule("(a) complete families of u32 sets (all 4096 subsets of a 12-index universe; prefix sets; strided, multiplicative-hash, run-union and dense-with-holes sets over full parameter products), each built two ways through revoke/unrevoke, encoded by the library and decoded back (directly, through the service's JSON, through a document), revoked through a document in one batch and half un-revoked in one batch, + harness-built legacy twin; (d) for every such set the endpoints another implementation would write: run-container streams (3 container-choice policies; decode, re-encode, update through a document: judged) and zlib levels 0/1/9 (recorded; only a wrong decoded set is judged); (b),(c) stateright BFS to closure over revoke/unrevoke batch histories on real documents from three start states (fresh, legacy, run-container stream + dense 4097-member set), batches are ordered index sequences with duplicates; membership of both services and check_status of every probe index judged after every step, status-entry variants, two offered issuer documents, check_revocation_bitmap_status and string service queries once per distinct real document state. distinct_nontrivial = distinct set cases (every one runs the whole encode/decode path) + unique document states of (b)");
+  ctx.assume("roaring (portable serialisation, also as the reader that cross-checks the harness-written run-container streams) and flate2 (zlib) are trusted lossless codecs; the harness builds legacy endpoints with them and its own base64 encoder");
+  ctx.assume("legacy form = the single text form Base64Url-nopad(zlib(roaring)) base64-encoded once more with the standard alphabet and padding, as the versions before the fix of issue #1291 wrote it through their data-url layer (empty bitmap: ZUp5ek1tQUFBd0FES0FCcg==); the unpadded variant and the variant with a standard-alphabet inner layer are recorded, not judged");
+  ctx.assume("a run-container stream (roaring format specification, cookie 12347) compressed with zlib at the default level is a conformant RevocationBitmap2022 endpoint that must decode; conformant endpoints compressed at other zlib levels are recorded only (the library tells legacy from current endpoints by the text prefix that the default level produces)");
   let max = ctx.by_tier(20_000u32, 100_000u32);
 
   // subsets of the 12-index universe
@@ -1001,26 +1692,26 @@ fn generate(ctx: &Ctx) {
 
   // (b) + (c): ordered batches of length 0..=2 (quick) / 0..=3 (thorough) on the 4-index universe; thorough adds
   // the 5-index universe with batches of length 0..=2
-  let runs: &[(u8, u8)] = if ctx.quick() { &[(0, 2)] } else { &[(0, 3), (1, 2)] };
+  // (universe, longest batch, start state). The run-container + dense start state costs ~3x per transition (an 8 KiB
+  // container is inflated / deflated at every step), so it gets shorter batches; closure is reached all the same.
+  let plan: &[(u8, u8, u8)] = if ctx.quick() { &[(0, 2, 0), (0, 2, 1), (0, 1, 2)] } else { &[(0, 3, 0), (0, 3, 1), (0, 2, 2), (1, 2, 0), (1, 2, 1), (1, 1, 2)] };
   // stateright's BFS gets little parallelism out of these small, wide graphs; the independent models run side by side
   std::thread::scope(|sc| {
-    for &(uni, max_len) in runs {
+    for &(uni, max_len, init) in plan {
       for kind in 0..2u8 {
-        for init in 0..2u8 {
-          sc.spawn(move || {
-            let name = format!(
-              "history {} start={} universe={:?} ordered batches of length 0..={max_len} ({} per op and service)",
-              if kind == 0 { "CoreDocument" } else { "IotaDocument" },
-              if init == 0 { "fresh" } else { "legacy" },
-              universe(uni),
-              batch_count(uni, max_len)
-            );
-            let st = vx::sr::run(ctx, &name, None, |col| HModel::new(kind, init, uni, max_len, col));
-            for i in 0..st.unique {
-              ctx.distinct(&("hist", uni, kind, init, i));
-            }
-          });
-        }
+        sc.spawn(move || {
+          let name = format!(
+            "history {} start={} universe={:?} ordered batches of length 0..={max_len} ({} per op and service)",
+            if kind == 0 { "CoreDocument" } else { "IotaDocument" },
+            init_name(init),
+            universe(uni),
+            batch_count(uni, max_len)
+          );
+          let st = vx::sr::run(ctx, &name, None, |col| HModel::new(kind, init, uni, max_len, col));
+          for i in 0..st.unique {
+            ctx.distinct(&("hist", uni, kind, init, i));
+          }
+        });
       }
     }
   });
@@ -1028,8 +1719,17 @@ fn generate(ctx: &Ctx) {
   ctx.bound("subset_universe", U12);
   ctx.bound("history_universe", UNI4);
   ctx.bound("history_universe_thorough_extra", UNI5);
-  ctx.bound("history_batches", ctx.by_tier("every ordered sequence (duplicates allowed) of length 0..=2 over the universe", "length 0..=3 over the 4-index universe, 0..=2 over the 5-index universe"));
+  ctx.bound(
+    "history_batches",
+    ctx.by_tier(
+      "every ordered sequence (duplicates allowed) of length 0..=2 over the universe (0..=1 from the run-container + dense start state)",
+      "length 0..=3 over the 4-index universe, 0..=2 over the 5-index universe (one shorter from the run-container + dense start state)",
+    ),
+  );
   ctx.bound("history_depth", "closure");
+  ctx.bound("history_start_states", ["fresh", &format!("legacy {:?} / {:?}", legacy_start_members(0), legacy_start_members(1)), "run-container stream [10,20)+[65530,65542)+{2^32-2,2^32-1} / library-written [0,4097)"]);
+  ctx.bound("foreign_encodings", ["run containers: all / alternating / size-optimal", "zlib levels 0, 1, 9 (recorded)"]);
+  ctx.bound("not_reached", "decompressed sizes near the 512 MiB + 8 bound of decompress_zlib (a set of ~2^32 indices): out of reach; the largest serialisation exercised is ~1 MB");
 }
 
 fn main() {
